@@ -1522,6 +1522,16 @@ class Executor:
         for p in params[len(args):]:
             if p in kwargs:
                 env[p] = kwargs[p]
+        if isinstance(sp, Spec) and sp.name in (self.c.opts.get("abstract_specs") or ()):
+            # opt-in (see apply_rec_spec): in this function's verification conditions the spec is an uninterpreted symbol of its
+            # arguments (an atom, for a predicate); its body is seen only where it is not abstracted (the lemmas about it)
+            rty = ann.get("return")
+            if not isinstance(rty, Ty) or not all(isinstance(v, V) for v in env.values()):
+                raise Unsupported(f"abstract spec {sp.name}: needs an annotated return type and symbolic arguments")
+            ak = "abstract:" + sp.name + ":" + ",".join(str(v.ty) for v in env.values())
+            if ak not in self.rec_decls:
+                self.rec_decls[ak] = z3.Function("abs_" + sp.name, *[v.ty.sort() for v in env.values()], rty.sort())
+            return V(rty, self.rec_decls[ak](*[v.z for v in env.values()]))
         # memoise: the same spec applied to the same terms yields the *same* z3 term (so that a quantified
         # premise occurring twice is recognised propositionally)
         try:
@@ -1570,6 +1580,15 @@ class Executor:
         ann = fn.__annotations__
         ptys = [ann[p] for p in params]
         rty = ann["return"]
+        if sp.name in (self.c.opts.get("abstract_specs") or ()):
+            # opt-in (Contract.opts["abstract_specs"] / Lemma.opts): inside THIS function's (lemma's) verification conditions the
+            # recursive spec is an UNINTERPRETED symbol -- the solver never unfolds its definition; whatever the proof needs about it
+            # must come from instances of proved lemmas (hints / unfold).  Sound: the conditions are then valid for every
+            # interpretation of the symbol that satisfies those instances, in particular for the defined function.
+            ak = "abstract:" + sp.name
+            if ak not in self.rec_decls:
+                self.rec_decls[ak] = z3.Function("abs_" + sp.name, *[t.sort() for t in ptys], rty.sort())
+            return V(rty, self.rec_decls[ak](*[coerce(a, t).z for a, t in zip(args, ptys)]))
         if sp.name not in self.rec_decls:
             f = z3.RecFunction("spec_" + sp.name, *[t.sort() for t in ptys], rty.sort())
             self.rec_decls[sp.name] = f
